@@ -82,6 +82,9 @@ def main (args : List String) : IO UInt32 := do
   | ["gen", "positions", seed, n] =>
     for l in Generate.genPositions seed.toNat! n.toNat! do IO.println l
     return 0
+  | ["gen", "repgames", seed, n] =>
+    for l in Generate.genRepGames seed.toNat! n.toNat! do IO.println l
+    return 0
   | ["gen", "games", seed, n, maxLen] =>
     for l in Generate.genGames seed.toNat! n.toNat! maxLen.toNat! do IO.println l
     return 0
